@@ -602,3 +602,29 @@ def const_reprs(prog, v):
                 elif c.get("val") is not None:
                     out.append(str(c["val"]))
     return out
+
+
+def predicate_accepts(world, fn_def, value):
+    """does the predicate `fn_def` (a closure or a named fn taking one scalar) return true for `value` on every path?
+    Decided by interpreting its body with the last parameter bound to the constant (whatever the shape of the test:
+    ==, matches!, a range, a lookup in a constant array)."""
+    from analyzer.engine import Engine, BudgetExceeded
+    prog = world.lib
+    body = prog.bodies.get(fn_def)
+    if body is None or body.arg_count < 1:
+        return False
+    eng = Engine(prog, world.models)
+
+    def setup(e, st, fr):
+        e.write(st, ("L", fr.id, body.arg_count), (), ("i", lin.const(value)))
+    try:
+        fr, finals = eng.run(fn_def, setup=setup, region="fn:" + fn_def)
+    except BudgetExceeded:
+        return False
+    if not finals:
+        return False
+    for st in finals:
+        r = eng.read(st, ("L", fr.id, 0), (), body.local_ty(0))
+        if not (isinstance(r, tuple) and r[0] == "i" and st.ctx.entails_eq(r[1], lin.const(1))):
+            return False
+    return True
